@@ -504,4 +504,48 @@ def ofAny : GoVal → Value
   | .ptr p => byKind (strip p)
   | g => ofAnyDirect g
 
+
+/-! ### the reflection path, stated by kind (what the theorems `C06_any_*` compare `ofAny` with) -/
+
+/-- what `reflect` sees of a value after `reflect.Indirect`: the unnamed value of its KIND — `typedef.Bool` is a uint8, a
+`proto.Value` a struct, a remaining pointer a pointer (both unsupported) -/
+def kindView : GoVal → GoVal
+  | .tbool v => .uint8 v
+  | .tbools vs => .uint8s vs
+  | .value _ | .ptr _ => .unsupported
+  | g => g
+
+/-- the value `proto.Any` works on: itself on the fast path (unnamed basic types, `typedef.Bool`, `proto.Value`); for a
+named type or a pointer the kind-level view of what it names / points to (names are transparent, one pointer is followed) -/
+def underlying : GoVal → GoVal
+  | .named g => match strip g with
+    | .ptr p => kindView (strip p)
+    | k => kindView k
+  | .ptr p => kindView (strip p)
+  | g => g
+
+/-- the value went through the reflection fallback -/
+def viaReflection : GoVal → Bool
+  | .named _ | .ptr _ => true
+  | _ => false
+
+/-- guard of the `Any` theorems: no float32 SCALAR signalling NaN goes through the reflection path (there
+`float32(rv.Float())` widens and narrows, which sets the quiet bit on amd64/arm64: `quiet32`) -/
+def noSNaN32 (g : GoVal) : Bool :=
+  match underlying g with
+  | .float32 v => !viaReflection g || quiet32 v == v
+  | _ => true
+
+/-- **what wrapping and unwrapping must return** (`proto.Any(v).Any()`): the content unchanged, as the unnamed Go type of its
+kind; a Go `bool` as the protocol's boolean `typedef.Bool` (false = 0, true = 1), a `typedef.Bool` outside {0, 1} as
+`BoolInvalid`; what `proto.Any` does not support (int, uint, structs, maps, `[]any`, nil, pointers to pointers) as nil -/
+def expectAny (g : GoVal) : GoVal :=
+  match underlying g with
+  | .nil | .unsupported | .ptr _ | .named _ => .nil
+  | .value v => toAny v
+  | .gobool b => .tbool (ofGoBool b)
+  | .gobools bs => .tbools (bs.map ofGoBool)
+  | .tbool v => .tbool (clampBool v)
+  | k => k
+
 end Fit.Value
